@@ -12,6 +12,7 @@ import (
 	dmenc "github.com/makiuchi-d/gozxing/datamatrix/encoder"
 	"github.com/makiuchi-d/gozxing/qrcode"
 	"github.com/makiuchi-d/gozxing/qrcode/encoder"
+	"pgregory.net/rapid"
 
 	"verif/internal/dmref"
 	"verif/internal/dmx"
@@ -230,6 +231,29 @@ func checkDMWriter(raw json.RawMessage) error {
 	return nil
 }
 
+// DMWriterHistory: the same content encoded several times in one process under different
+// MIN_SIZE / MAX_SIZE hints (none, one of them, both, swapped): every call must honour its own hints.
+type DMWriterHistory struct {
+	Steps []DMWriterCase `json:"steps"`
+}
+
+func checkDMWriterHistory(raw json.RawMessage) error {
+	var h DMWriterHistory
+	if err := json.Unmarshal(raw, &h); err != nil {
+		return fmt.Errorf("hx: %v", err)
+	}
+	for i, st := range h.Steps {
+		b, _ := json.Marshal(st)
+		if err := checkDMWriter(b); err != nil {
+			if strings.HasPrefix(err.Error(), "hx:") {
+				return err
+			}
+			return fmt.Errorf("call %d of %d in one process (earlier calls: %+v): %v", i+1, len(h.Steps), h.Steps[:i], err)
+		}
+	}
+	return nil
+}
+
 var modes = []int{qrref.Numeric, qrref.Alnum, qrref.Byte, qrref.Kanji}
 
 func TestCheck(t *testing.T) {
@@ -237,6 +261,7 @@ func TestCheck(t *testing.T) {
 		c.Register("qr", checkQR)
 		c.Register("dm_lookup", checkDM)
 		c.Register("dm_writer", checkDMWriter)
+		c.Register("dm_writer_history", checkDMWriterHistory)
 	}, func(c *hx.Ctx) {
 		// published anchor figures against the reference first
 		anchors := []struct{ mode, v, level, want int }{
@@ -370,5 +395,31 @@ func TestCheck(t *testing.T) {
 			}
 		}
 		c.SetExhaustive("dm_writer_digits", false)
+
+		// the same content under changing size hints within one process
+		c.Rapid("dm_writer_hint_histories", c.N(150, 3000), func(t *rapid.T) {
+			k := rapid.IntRange(1, 60).Draw(t, "k")
+			if rapid.IntRange(0, 3).Draw(t, "bigk") == 0 {
+				k = rapid.IntRange(1, 1559).Draw(t, "k2")
+			}
+			shape := rapid.SampledFrom([]int{0, 0, 1, 2}).Draw(t, "shape")
+			a, b := rapid.IntRange(0, 29).Draw(t, "a"), rapid.IntRange(0, 29).Draw(t, "b")
+			pick := func(label string) int {
+				return rapid.SampledFrom([]int{-1, a, b}).Draw(t, label)
+			}
+			var h DMWriterHistory
+			n := rapid.IntRange(2, 6).Draw(t, "calls")
+			distinct := map[[2]int]bool{}
+			for i := 0; i < n; i++ {
+				st := DMWriterCase{K: k, Shape: shape, Min: pick("min"), Max: pick("max")}
+				distinct[[2]int{st.Min, st.Max}] = true
+				h.Steps = append(h.Steps, st)
+			}
+			raw, _ := json.Marshal(h)
+			c.Note("dm_writer_hint_histories", fmt.Sprintf("shape=%d;distinct_hint_pairs=%d", shape, len(distinct)), len(distinct) > 1, hx.Hash(raw), func() any { return h })
+			if err := c.Eval("dm_writer_history", h); err != nil {
+				t.Fatalf("%v", err)
+			}
+		})
 	})
 }
